@@ -964,6 +964,40 @@ impl SequenceOrSet {
 }
 
 impl ASN1Value {
+    /// Follows the references `a T ::= b`, `b T ::= c`, ... from the value assignment `identifier`
+    /// to the value the chain ends in. If a definition along the chain is not available, the last
+    /// reference that could be reached is returned, `None` if `identifier` itself is no value
+    /// assignment. A chain that leads back into itself is an error.
+    fn resolve_value_reference<'a>(
+        tlds: &'a BTreeMap<String, ToplevelDefinition>,
+        identifier: &'a String,
+    ) -> Result<Option<&'a ASN1Value>, GrammarError> {
+        let mut visited = vec![identifier];
+        let mut resolved = None;
+        let mut current = identifier;
+        while let Some(ToplevelDefinition::Value(tld)) = tlds.get(current) {
+            resolved = Some(&tld.value);
+            match &tld.value {
+                ASN1Value::ElsewhereDeclaredValue {
+                    module: None,
+                    parent: None,
+                    identifier: next,
+                } => {
+                    if visited.contains(&next) {
+                        return Err(grammar_error!(
+                            LinkerError,
+                            "Circular value reference: {next} is defined in terms of itself"
+                        ));
+                    }
+                    visited.push(next);
+                    current = next;
+                }
+                _ => break,
+            }
+        }
+        Ok(resolved)
+    }
+
     pub fn link_with_type(
         &mut self,
         tlds: &BTreeMap<String, ToplevelDefinition>,
@@ -1051,7 +1085,9 @@ impl ASN1Value {
                         // }
                         // ```
                         // Cases like these need to be explicitly cast in the rust bindings.
-                        *self = val.clone().value;
+                        *self = Self::resolve_value_reference(tlds, identifier)?
+                            .unwrap_or(&val.value)
+                            .clone();
                         self.link_with_type(
                             tlds,
                             &ASN1Type::ElsewhereDeclaredType(e.clone()),
@@ -1404,9 +1440,9 @@ impl ASN1Value {
                         integer_type: i.int_type(),
                         value,
                     };
-                } else if let Some(ToplevelDefinition::Value(tld)) = tlds.get(identifier) {
+                } else if let Some(value) = Self::resolve_value_reference(tlds, identifier)? {
                     // not a named number: a reference to another value assignment
-                    *self = tld.value.clone();
+                    *self = value.clone();
                     self.link_with_type(tlds, ty, type_name)?;
                 }
                 Ok(())
@@ -1445,9 +1481,9 @@ impl ASN1Value {
                         enumerated: tld.name().clone(),
                         enumerable: identifier.clone(),
                     };
-                } else if let Some(ToplevelDefinition::Value(tld)) = tlds.get(identifier) {
+                } else if let Some(value) = Self::resolve_value_reference(tlds, identifier)? {
                     // not an enumeral: a reference to another value assignment
-                    *self = tld.value.clone();
+                    *self = value.clone();
                     self.link_with_type(tlds, ty, type_name)?;
                 }
                 Ok(())
@@ -1460,8 +1496,8 @@ impl ASN1Value {
                     identifier,
                 },
             ) => {
-                if let Some(ToplevelDefinition::Value(tld)) = tlds.get(identifier) {
-                    *self = tld.value.clone();
+                if let Some(value) = Self::resolve_value_reference(tlds, identifier)? {
+                    *self = value.clone();
                     self.link_with_type(tlds, ty, type_name)?;
                 }
                 Ok(())
